@@ -31,13 +31,44 @@ def shard_file(path, n, workdir, name):
 
 
 def run_sharded(ctx, cmd, shards, name):
+    """run vhc19 <cmd> on every shard.  A harness process that dies (fatal Go error: stack overflow, out of memory - not
+    a recoverable panic) is a totality observation on the case it was processing: the case is recorded as a crash and
+    the rest of the shard is run in a new process."""
     from concurrent.futures import ThreadPoolExecutor
     ctx.build_bin("vhc19")
 
     def one(i):
-        return ctx.harness("vhc19", [cmd], stdin_path=shards[i], out_name="%s_res_%02d.jsonl" % (name, i), timeout=3000)
+        outs, path, part = [], shards[i], 0
+        while True:
+            out_name = "%s_res_%02d_%d.jsonl" % (name, i, part)
+            try:
+                outs.append(ctx.harness("vhc19", [cmd], stdin_path=path, out_name=out_name, timeout=3000))
+                return outs
+            except MachineryFault as e:
+                outp = os.path.join(ctx.work, out_name)
+                done = sum(1 for _ in open(outp)) if os.path.exists(outp) else 0
+                lines = open(path).readlines()
+                # bytes mode answers only rt behaviours: map answered results back to input lines
+                idxs = [k for k, l in enumerate(lines) if cmd == "replay" or json.loads(l)["kind"] == "rt"]
+                if done >= len(idxs) or part >= 20:
+                    raise
+                k = idxs[done]
+                b = json.loads(lines[k])
+                crash = {"id": "crash_%s_%02d_%d" % (name, i, part), "validated": True,
+                         "input": {"kind": "mut" if b["kind"] == "mut" else "rt", "node": b["node"], "mut": b.get("mut")},
+                         "observed": {"harness": str(e)[-300:]},
+                         "class": {"case": b["kind"], "kind": b["node"]["k"], "mut": (b.get("mut") or {}).get("m", "none")},
+                         "mismatch": [{"obs": "totality", "why": "crash", "detail": "the process died while this case was handled"}]}
+                cp = os.path.join(ctx.work, "%s_crash_%02d_%d.jsonl" % (name, i, part))
+                open(cp, "w").write(json.dumps(crash) + "\n")
+                # keep what was answered, add the crash, continue after the crashing case
+                outs.append(outp)
+                outs.append(cp)
+                part += 1
+                path = os.path.join(ctx.work, "%s_rest_%02d_%d.jsonl" % (name, i, part))
+                open(path, "w").writelines(lines[k + 1:])
     with ThreadPoolExecutor(max_workers=len(shards)) as ex:
-        return list(ex.map(one, range(len(shards))))
+        return [p for ps in ex.map(one, range(len(shards))) for p in ps]
 
 
 def run(ctx):
@@ -105,23 +136,12 @@ def run(ctx):
                 elif rp["kind"] == "bytes" and b["kind"] == "rt" and sem == want:
                     o.write(line)
         res = run_sharded(ctx, "bytes" if rp["kind"] == "bytes" else "replay", [sel], "rp")
-        for r in ctx.read_results(res[0]):
-            if rp["kind"] == "mut" and r["id"].startswith("rt"):
-                continue
-            ctx.add_result(r)
+        for pth in res:
+            for r in ctx.read_results(pth):
+                if rp["kind"] == "mut" and r["id"].startswith("rt"):
+                    continue
+                ctx.add_result(r)
         return
-    # canary: the expected semantic node of one behaviour is corrupted; the replay must report exactly that case
-    if canary_line is None:
-        raise MachineryFault("no behaviour to derive the canary from")
-    can = json.loads(json.dumps(canary_line))
-    can["sem"]["ident"]["v"] = "req.http.CANARY"
-    can["canary"] = True
-    cpath = os.path.join(ctx.work, "canary.jsonl")
-    with open(cpath, "w") as o:
-        o.write(json.dumps(can) + "\n")
-    cres = list(ctx.read_results(run_sharded(ctx, "replay", [cpath], "canary")[0]))
-    if len(cres) != 1 or not any(mm.get("obs") in ("machinery", "roundtrip") for mm in (cres[0].get("mismatch") or [])):
-        raise MachineryFault("canary (corrupted expected node) was accepted by the replay")
     n = min(ctx.workers, 16)
     shards = shard_file(beh, n, ctx.work, "beh")
     res = run_sharded(ctx, "replay", shards, "replay")
@@ -140,6 +160,19 @@ def run(ctx):
             if isinstance(r.get("input"), dict):
                 r["input"]["tier"] = ctx.tier
             ctx.add_result(r)
+    # canary - after the run, and only if the run found nothing: a real violation is the verdict (exit 1) whatever the
+    # canary would do.  The expected semantic node of one behaviour is corrupted; the replay must report exactly it.
+    if not any(u for (_, u, _) in ctx.failing):
+        if canary_line is None:
+            raise MachineryFault("no behaviour to derive the canary from")
+        can = json.loads(json.dumps(canary_line))
+        can["sem"]["ident"]["v"] = "req.http.CANARY"
+        cpath = os.path.join(ctx.work, "canary.jsonl")
+        with open(cpath, "w") as o:
+            o.write(json.dumps(can) + "\n")
+        cres = [r for p in run_sharded(ctx, "replay", [cpath], "canary") for r in ctx.read_results(p)]
+        if len(cres) != 1 or not any(mm.get("obs") in ("machinery", "roundtrip") for mm in (cres[0].get("mismatch") or [])):
+            raise MachineryFault("canary (corrupted expected node) was accepted by the replay")
     ctx.notes["byte_level_inputs"] = byte_inputs
     if ctx.results_n < nrt + nmut:
         raise MachineryFault("replay returned %d results for %d behaviours" % (ctx.results_n, nrt + nmut))
